@@ -2,8 +2,8 @@
 C12 - the 1-D intensity of an oriented model is the orientational average of its 2-D intensity.
 
 Space: every oriented model x shape parameter sets (defaults; every single shape ("volume") parameter
-scaled by a small and by a large factor; in the thorough tier every pair of them scaled, 2 x 2 factor
-combinations) x q with q*size in {0.1, 0.5, 1, 2, 5, 10, 20}, size = cube root of the form volume.
+scaled by a small and by a large factor; in the thorough tier also by their squares, and every pair of
+them scaled, 2 x 2 factor combinations) x q with q*size in {0.1, 0.5, 1, 2, 5, 10, 20}, size = cube root of the form volume.
 One case = one (model, parameter set); the q values are looped inside.
 
 Oracle: composite Gauss-Legendre average over the FULL sphere (2 panels in cos(alpha) x 4 panels in
@@ -32,7 +32,7 @@ TECHNIQUE = ("exhaustive enumeration of an aspect-ratio alphabet x q*size grid o
              "compared with a converged full-sphere Gauss-Legendre average of the model's own Iqac/Iqabc (compiled shim), "
              "restricted to points where the model's own quadrature is converged under a change of its Gauss table")
 RULE = ("all (model, parameter set, q) with parameter sets = defaults, each shape parameter x {small, large} (thorough: "
-        "also every pair x {small, large}^2), q*size in 7 steps; non-trivial = decidable point whose I(q) differs from "
+        "also x {small^2, large^2} and every pair x {small, large}^2), q*size in 7 steps; non-trivial = decidable point whose I(q) differs from "
         "I(q->0) by > 1 %; points where either quadrature is not converged are counted as inconclusive, never judged")
 ASSUMPTIONS = [
     "the model's own Iqac/Iqabc, reached through wrappers appended to the generated source, define the 2-D intensity "
@@ -49,7 +49,7 @@ BOUNDS = {
     "quick": {"models": "all 21 oriented models", "parameter_sets": "defaults + each volume parameter x {1/4, 4} (seed-rotated)",
               "q*size": QSIZE, "ladder": LADDER["quick"], "ref_tol": 1e-7, "model_tol": 1e-6, "verdict_tol": 1e-5},
     "thorough": {"models": "all 21 oriented models",
-                 "parameter_sets": "defaults + singles + every pair of volume parameters x {1/4, 4}^2",
+                 "parameter_sets": "defaults + each volume parameter x {1/16, 1/4, 4, 16} + every pair of volume parameters x {1/4, 4}^2",
                  "q*size": QSIZE, "ladder": LADDER["thorough"], "ref_tol": 1e-7, "model_tol": 1e-6, "verdict_tol": 1e-5},
 }
 CASE_TIMEOUT = 900
@@ -93,8 +93,9 @@ def cases(ctx):
         info = build.info(m)
         vol = volume_pars(info)
         out.append({"model": m, "scaled": {}})
+        singles = (lo, hi) if ctx.quick else (lo, hi, lo * lo, hi * hi)
         for p in vol:
-            for f in (lo, hi):
+            for f in singles:
                 if p.limits[0] <= p.default * f <= p.limits[1]:
                     out.append({"model": m, "scaled": {p.name: f}})
         if not ctx.quick:
